@@ -71,10 +71,12 @@ func (rt *Runtime) runSchedule(s *Schedule, byID map[string]*Scenario) map[strin
 	}
 	k := len(s.Procs)
 	ps := make([]*procSched, k)
+	done := make([]chan struct{}, k)
 	results := make([]map[string]any, k)
 	var wg sync.WaitGroup
 	for i := range ps {
 		ps[i] = &procSched{arrive: make(chan string), release: make(chan struct{}), free: make(chan struct{})}
+		done[i] = make(chan struct{})
 		scn, ok := byID[s.Procs[i]]
 		if !ok {
 			Fatal("schedule %s: unknown scenario %q", s.ID, s.Procs[i])
@@ -82,6 +84,7 @@ func (rt *Runtime) runSchedule(s *Schedule, byID map[string]*Scenario) map[strin
 		wg.Add(1)
 		go func(i int, scn *Scenario) {
 			defer wg.Done()
+			defer close(done[i])
 			results[i] = rt.runOneSched(scn, ps[i])
 		}(i, scn)
 	}
@@ -95,6 +98,9 @@ func (rt *Runtime) runSchedule(s *Schedule, byID map[string]*Scenario) map[strin
 				mismatch = append(mismatch, s.Procs[p]+": at "+got+" instead of "+want)
 			}
 			ps[p].release <- struct{}{}
+		case <-done[p]:
+			// an observation, not a timeout: the exchange is over and the gate was never passed
+			mismatch = append(mismatch, s.Procs[p]+": finished instead of reaching "+want)
 		case <-time.After(gateWait):
 			mismatch = append(mismatch, s.Procs[p]+": never reached "+want)
 		}
